@@ -7,9 +7,9 @@ TRUST = ("trusted: go/ssa lowering (x/tools v0.29.0), the vcgo encoder (guarded 
          "assumed contracts of stdlib/dependency functions listed in the evidence, single-threaded execution of each verified function. ")
 
 CLAIMS = {
- "C01": ("slices: framing-name recognition (CaseInsensitiveCompare) is exact ASCII-case-insensitive equality and ParseUintBuf returns the mathematical value of the digits or an error, for all byte strings, unbounded",
+ "C01": ("slices: framing-name recognition (CaseInsensitiveCompare) is exact ASCII-case-insensitive equality and ParseUintBuf returns the mathematical value of the digits or an error, for all byte strings, unbounded; in Server.Serve (abstract-mode typestate) the handler runs at most once per iteration, only after header and body were read without error and never on the reject path, one response is written per iteration and only after the handler (or on the reject path), and the context is reset only after the response",
          "not decided: whole-stream end-to-end claim, header field content equality, netpoll transport", "3 C01"),
- "C03": ("slice: absence of run-time panics (index, slice, nil, explicit panic, make size, division) for all inputs in the parsers of untrusted data under contract (see evidence for the list)",
+ "C03": ("slices: absence of run-time panics (index, slice, nil, explicit panic, make size, division) for all inputs in the parsers of untrusted data under contract (see evidence for the list); reject path of Server.Serve (abstract-mode typestate): the error response is written exactly once, carries Connection: close, no handler runs in that iteration and Serve returns right after it",
          "not decided: well-formedness of everything emitted; functions not yet under contract", "3 C03"),
  "C05": ("newlineToSpace yields a same-length copy without CR or LF and appendHeaderLine appends nothing or exactly one line whose only CR/LF bytes are its own terminator, for all byte strings; in the header serialisers (RequestHeader/ResponseHeader/Trailer.AppendBytes) every raw append of non-constant bytes is proved free of CR and LF and raw appenders may only fill standalone buffers, so every line break in the output is one the serialiser wrote itself",
          "not decided: the request line (method, request URI) is application-controlled and outside the property's list - reported as exempt in the evidence; consts.StatusLine is an assumed contract; count of fields is by construction of the call-site discipline, not a counted postcondition", "3 C05"),
@@ -21,6 +21,10 @@ CLAIMS = {
          "assumed: a handler does not call SetHandlers/Reset on the live context; a panic from int8 wrap-around of the chain index is not recovered and followed by >= 127 further Next calls (partial correctness stops at the first panic); len(handlers) < 63 is a precondition of Next (established by combineHandlers); not decided: Engine.ServeHTTP's choice of chain, router lookup (C06)", "3 C12"),
  "C19": ("tracer typestate of Server.Serve (abstract mode: every call that cannot touch the ghost state havocs all real state): DoStart only when no start is outstanding, DoFinish only when exactly one start is outstanding and the stage-event stack is empty, on every path of every iteration including the deferred epilogue and the stage closures; no start outstanding at the loop head and at every return",
          "assumed: eventStack.push/pop effect on the event depth (three-line functions), sync.Pool.Get returns non-nil; the ghost state is only meaningful for the call sites inside Serve and the closures inlined into it; not decided: timestamp ordering inside a pair, the netpoll return-to-poller re-entry", "3 C19"),
+ "C10": ("sequential slices: HostClient.Do leaves the pending-request gauge balanced on every path and hands a request to c.do more than once only if the default retry predicate (assumed to answer true only for requests safe to repeat) allowed it or a custom retry function is installed; HostClient.doNonNilReqResp disposes of every acquired connection exactly once on every path (closed, released or handed to the upgrade wrapper / stream callback), never twice, and releases it to the pool only with err == nil and no close demand",
+         "not decided: everything quantified over interleavings (exclusivity, connsCount bound, waiter hand-off, idle reaper) and wall-clock bounds; analysed in abstract mode: calls without ghost-relevant contracts havoc all real state; the stream-close callback's own disposal is not followed", "3 C10"),
+ "C18": ("sequential slice only: in Server.Serve, when Core.IsRunning() is observed false at the exit check after the handler, Connection: close is on the response before writeResponse is called and the loop does not start another iteration",
+         "not decided: everything quantified over schedules and time (in-flight completion, listener close, wait bound, Shutdown's hook fan-out); this is a necessary condition of the property, not the property", "3 C18"),
 }
 NA = {
  "C06": "recursive pointer trie with back-pointers, goto/closure backtracking and a recursive priority-match specification; no contract within reach of this tool chain states or decides priority dispatch",
